@@ -1,76 +1,1004 @@
 (* C12_Proofs.v *)
-From Verif Require Import Common C12_Model C12_Spec C12_Corr.
+From Verif Require Import Common Json JsonText JsonText_Proofs C12_Model C12_Spec C12_Corr.
 Open Scope N_scope.
 
-Lemma run_remaining i : o_remaining (run i) = 0.
+(* ------------------------------------------------------------------ verdict algebra *)
+Lemma vand_true a b : vand a b = Some true <-> a = Some true /\ b = Some true.
 Proof.
-  unfold run. destruct (prepare _ 0) as [created ok]. destruct ok; simpl.
-  - destruct (Z.eqb (i_exit i) 0); simpl; [|reflexivity].
-    destruct (parses (i_metrics i)); simpl; [|reflexivity].
-    destruct (parses (i_admission i)); simpl; [|reflexivity].
-    destruct (parses (i_conversion i)); simpl; [|reflexivity].
-    destruct (parses (i_patch i)); reflexivity.
-  - apply N.sub_diag.
+  destruct a as [[|]|], b as [[|]|]; simpl; split; intros H; try discriminate;
+    try (destruct H as [H1 H2]; discriminate); auto.
 Qed.
+Lemma vand_false a b : vand a b = Some false <-> a = Some false \/ b = Some false.
+Proof.
+  destruct a as [[|]|], b as [[|]|]; simpl; split; intros H; try discriminate; auto;
+    destruct H as [H|H]; discriminate.
+Qed.
+Lemma vall_true l : vall l = Some true <-> forall x, In x l -> x = Some true.
+Proof.
+  induction l as [|a l IH]; simpl.
+  - split; [intros _ x [] | reflexivity].
+  - rewrite vand_true, IH. split.
+    + intros [Ha Hl] x [<-|Hx]; auto.
+    + intros H; split; [apply H; auto | intros x Hx; apply H; auto].
+Qed.
+Lemma vall_false l : vall l = Some false <-> exists x, In x l /\ x = Some false.
+Proof.
+  induction l as [|a l IH]; simpl.
+  - split; [discriminate | intros [x [[] _]]].
+  - rewrite vand_false, IH. split.
+    + intros [Ha|[x [Hx E]]]; [exists a; auto | exists x; auto].
+    + intros [x [[<-|Hx] E]]; [left; exact E | right; exists x; auto].
+Qed.
+
+Lemma bytes_eqb_false a b : bytes_eqb a b = false <-> a <> b.
+Proof.
+  split.
+  - intros E H. apply bytes_eqb_eq in H. congruence.
+  - intros H. destruct (bytes_eqb a b) eqn:E; [apply bytes_eqb_eq in E; contradiction | reflexivity].
+Qed.
+Lemma bytes_eqb_sym a b : bytes_eqb a b = bytes_eqb b a.
+Proof.
+  destruct (bytes_eqb a b) eqn:E.
+  - apply bytes_eqb_eq in E. subst. symmetry. apply bytes_eqb_refl.
+  - symmetry. apply bytes_eqb_false. apply bytes_eqb_false in E. congruence.
+Qed.
+
+(* ------------------------------------------------------------------ object -> struct on clean documents *)
+Fixpoint distinctb (l : list bytes) : bool :=
+  match l with
+  | [] => true
+  | x :: r => negb (existsb (bytes_eqb x) r) && distinctb r
+  end.
+
+Lemma distinct_type (sch : schema) : distinctb (map fst sch) = true ->
+  forall n t t', In (n, t) sch -> In (n, t') sch -> t = t'.
+Proof.
+  induction sch as [|[n0 t0] sch IH]; simpl; intros D n t t' H1 H2; [contradiction|].
+  apply andb_true_iff in D as [D1 D2]. apply negb_true_iff in D1.
+  assert (NI : forall t1, In (n0, t1) sch -> False).
+  { intros t1 Hin. assert (X : existsb (bytes_eqb n0) (map fst sch) = true).
+    { apply existsb_exists. exists n0. split; [apply (in_map fst) in Hin; exact Hin | apply bytes_eqb_refl]. }
+    congruence. }
+  destruct H1 as [E1|H1], H2 as [E2|H2].
+  - congruence.
+  - inversion E1; subst. exfalso; eauto.
+  - inversion E2; subst. exfalso; eauto.
+  - eauto.
+Qed.
+
+Lemma find_field_some p sch f : find_field p sch = Some f -> In f sch /\ p (fst f) = true.
+Proof.
+  induction sch as [|g sch IH]; simpl; [discriminate|].
+  destruct (p (fst g)) eqn:E; intros H.
+  - inversion H; subst. auto.
+  - destruct (IH H); auto.
+Qed.
+Lemma find_field_none p sch : find_field p sch = None -> forall f, In f sch -> p (fst f) = false.
+Proof.
+  induction sch as [|g sch IH]; simpl; intros H f Hf; [contradiction|].
+  destruct (p (fst g)) eqn:E; [discriminate|]. destruct Hf as [<-|Hf]; auto.
+Qed.
+
+Definition clean_key (sch : schema) (k : bytes) : bool :=
+  forallb (fun f => implb (bytes_eqb (fold_key (fst f)) (fold_key k)) (bytes_eqb (fst f) k)) sch.
+
+Lemma field_of_clean sch k n t :
+  clean_key sch k = true -> field_of sch k = Some (n, t) -> n = k /\ In (n, t) sch.
+Proof.
+  unfold field_of. intros C H.
+  destruct (find_field (fun n0 => bytes_eqb n0 k) sch) as [f|] eqn:E1.
+  - inversion H; subst. apply find_field_some in E1 as [I E]. simpl in E. apply bytes_eqb_eq in E. auto.
+  - apply find_field_some in H as [I E]. simpl in E.
+    unfold clean_key in C. rewrite forallb_forall in C. specialize (C _ I). simpl in C.
+    rewrite E in C. simpl in C. apply bytes_eqb_eq in C. auto.
+Qed.
+Lemma field_of_none sch k : field_of sch k = None -> forall f, In f sch -> bytes_eqb (fst f) k = false.
+Proof.
+  unfold field_of. intros H f Hf.
+  destruct (find_field (fun n0 => bytes_eqb n0 k) sch) as [g|] eqn:E1; [discriminate|].
+  apply (find_field_none _ _ E1 f Hf).
+Qed.
+
+Lemma count_key_cons n k v m :
+  count_key n ((k, v) :: m) = if bytes_eqb k n then S (count_key n m) else count_key n m.
+Proof. unfold count_key. simpl. destruct (bytes_eqb k n); reflexivity. Qed.
+
+Lemma count_zero_assoc n m : count_key n m = O -> assoc n m = None.
+Proof.
+  induction m as [|[k v] m IH]; [reflexivity|]. rewrite count_key_cons. simpl.
+  rewrite (bytes_eqb_sym n k). destruct (bytes_eqb k n); [discriminate | exact IH].
+Qed.
+Lemma count_zero_notin n m : count_key n m = O -> forall kv, In kv m -> fst kv <> n.
+Proof.
+  induction m as [|[k v] m IH]; intros H kv Hin; [contradiction|]. rewrite count_key_cons in H.
+  destruct (bytes_eqb k n) eqn:E; [discriminate|]. destruct Hin as [<-|Hin].
+  - simpl. now apply bytes_eqb_false.
+  - now apply IH.
+Qed.
+
+(* what decode_members does on a document whose keys are clean and unique: every documented
+   member is stored into its own, still unset field *)
+Lemma dm_gen (sch : schema) (D : distinctb (map fst sch) = true) : forall m st,
+  forallb (fun kv => clean_key sch (fst kv)) m = true ->
+  (forall f, In f sch -> (count_key (fst f) m <= 1)%nat) ->
+  (forall kv f, In kv m -> In f sch -> fst f = fst kv -> sget st (fst kv) = VUnset) ->
+  match decode_members sch m st with
+  | Some st' => forall n t, In (n, t) sch ->
+      match assoc n m with
+      | Some v => store t VUnset v = Some (sget st' n)
+      | None => sget st' n = sget st n
+      end
+  | None => exists n t v, In (n, t) sch /\ assoc n m = Some v /\ store t VUnset v = None
+  end.
+Proof.
+  induction m as [|[k v] m IH]; intros st C U Z.
+  - simpl. intros n t _. reflexivity.
+  - simpl in C. apply andb_true_iff in C as [Ck C]. simpl in Ck.
+    cbn [decode_members].
+    destruct (field_of sch k) as [[n t]|] eqn:F.
+    + destruct (field_of_clean sch k n t Ck F) as [-> I].
+      assert (Z0 : sget st k = VUnset) by (apply (Z (k, v) (k, t)); simpl; auto).
+      rewrite Z0.
+      assert (Cnt : count_key k m = O).
+      { specialize (U _ I). simpl in U. rewrite count_key_cons, bytes_eqb_refl in U. lia. }
+      destruct (store t VUnset v) as [x|] eqn:S.
+      * specialize (IH ((k, x) :: st) C).
+        assert (U' : forall f, In f sch -> (count_key (fst f) m <= 1)%nat).
+        { intros f Hf. specialize (U f Hf). rewrite count_key_cons in U. destruct (bytes_eqb k (fst f)); lia. }
+        assert (Z' : forall kv f, In kv m -> In f sch -> fst f = fst kv -> sget ((k, x) :: st) (fst kv) = VUnset).
+        { intros kv f Hkv Hf E. simpl.
+          assert (NE : fst kv <> k) by (apply (count_zero_notin _ _ Cnt); assumption).
+          assert (B : bytes_eqb k (fst kv) = false) by (apply bytes_eqb_false; congruence).
+          rewrite B. apply (Z kv f); simpl; auto. }
+        specialize (IH U' Z').
+        destruct (decode_members sch m ((k, x) :: st)) as [st'|].
+        -- intros n0 t0 I0. specialize (IH n0 t0 I0). simpl.
+           destruct (bytes_eqb n0 k) eqn:E.
+           ++ apply bytes_eqb_eq in E. subst n0.
+              rewrite (distinct_type _ D _ _ _ I0 I).
+              rewrite (count_zero_assoc _ _ Cnt) in IH. rewrite IH. simpl. rewrite bytes_eqb_refl. exact S.
+           ++ destruct (assoc n0 m); [exact IH|]. rewrite IH. simpl.
+              rewrite (bytes_eqb_sym k n0), E. reflexivity.
+        -- destruct IH as (n0 & t0 & v0 & I0 & A0 & S0). exists n0, t0, v0. repeat split; auto.
+           simpl. destruct (bytes_eqb n0 k) eqn:E; [|exact A0].
+           apply bytes_eqb_eq in E. subst. rewrite (count_zero_assoc _ _ Cnt) in A0. discriminate.
+      * exists k, t, v. repeat split; auto. simpl. now rewrite bytes_eqb_refl.
+    + pose proof (field_of_none _ _ F) as NF.
+      assert (U' : forall f, In f sch -> (count_key (fst f) m <= 1)%nat).
+      { intros f Hf. specialize (U f Hf). rewrite count_key_cons in U. destruct (bytes_eqb k (fst f)); lia. }
+      assert (Z' : forall kv f, In kv m -> In f sch -> fst f = fst kv -> sget st (fst kv) = VUnset).
+      { intros kv f Hkv Hf E. apply (Z kv f); simpl; auto. }
+      specialize (IH st C U' Z').
+      destruct (decode_members sch m st) as [st'|].
+      * intros n0 t0 I0. specialize (IH n0 t0 I0). simpl.
+        specialize (NF _ I0). simpl in NF. now rewrite NF.
+      * destruct IH as (n0 & t0 & v0 & I0 & A0 & S0). exists n0, t0, v0. repeat split; auto.
+        simpl. specialize (NF _ I0). simpl in NF. now rewrite NF.
+Qed.
+
+(* ------------------------------------------------------------------ documented shape vs. what the decoder stores *)
+Lemma map_opt_some A B (f : A -> option B) l :
+  (forall x, In x l -> f x <> None) -> exists ys, map_opt f l = Some ys /\ length ys = length l.
+Proof.
+  induction l as [|a l IH]; intros H; [exists []; auto|].
+  simpl. destruct (f a) as [y|] eqn:E; [|exfalso; apply (H a); simpl; auto].
+  destruct IH as (ys & -> & L); [intros x Hx; apply H; simpl; auto|].
+  exists (y :: ys). simpl. auto.
+Qed.
+Arguments map_opt_some {A B} f l _.
+Lemma map_opt_none A B (f : A -> option B) l x : In x l -> f x = None -> map_opt f l = None.
+Proof.
+  induction l as [|a l IH]; intros Hin E; [contradiction|]. simpl.
+  destruct Hin as [->|Hin]; [now rewrite E|].
+  rewrite (IH Hin E). destruct (f a); reflexivity.
+Qed.
+Arguments map_opt_none {A B} f l x _ _.
+Lemma map_opt_all A B (f : A -> option B) l ys : map_opt f l = Some ys -> forall x, In x l -> f x <> None.
+Proof.
+  intros H x Hx E. rewrite (map_opt_none f l x Hx E) in H. discriminate.
+Qed.
+
+Lemma elems_true ok (elem : json -> option bytes) l :
+  (forall e, ok e = true -> elem e <> None) ->
+  elems_verdict ok l = Some true -> exists ys, map_opt elem l = Some ys.
+Proof.
+  unfold elems_verdict. intros H. destruct (forallb ok l) eqn:E.
+  - intros _. rewrite forallb_forall in E.
+    destruct (map_opt_some elem l) as (ys & Hy & _); [intros x Hx; apply H, E, Hx | eauto].
+  - destruct (forallb (fun e : json => ok e || is_null e) l); intros Q; discriminate Q.
+Qed.
+Lemma elems_false ok (elem : json -> option bytes) l :
+  (forall e, ok e = false -> is_null e = false -> elem e = None) ->
+  elems_verdict ok l = Some false -> map_opt elem l = None.
+Proof.
+  unfold elems_verdict. intros H. destruct (forallb ok l) eqn:E; [discriminate|].
+  destruct (forallb (fun e => ok e || is_null e) l) eqn:E2; [discriminate|]. intros _.
+  assert (X : exists e, In e l /\ (ok e || is_null e) = false).
+  { clear E H. induction l as [|a l IH]; simpl in E2; [discriminate|].
+    destruct (ok a || is_null a) eqn:Ea.
+    - destruct (IH E2) as (e & I & Q). exists e; simpl; auto.
+    - exists a; simpl; auto. }
+  destruct X as (e & I & Q). apply orb_false_iff in Q as [Q1 Q2].
+  apply (map_opt_none elem l e I). now apply H.
+Qed.
+
+Lemma has_type_false t old v : has_type t v = Some false -> store t old v = None.
+Proof.
+  destruct t, v; simpl; intros H; try discriminate; try reflexivity.
+  - (* TNums, JArr *)
+    rewrite (elems_false is_num num_elem l); [reflexivity| |exact H].
+    intros e; destruct e; simpl; intros; try discriminate; reflexivity.
+  - rewrite (elems_false is_str str_elem l); [reflexivity| |exact H].
+    intros e; destruct e; simpl; intros; try discriminate; reflexivity.
+  - (* TStrMap, JObj *)
+    assert (X : map_opt map_elem m = None).
+    { unfold elems_verdict in H.
+      destruct (forallb is_str (map snd m)) eqn:E; [discriminate|].
+      destruct (forallb (fun e => is_str e || is_null e) (map snd m)) eqn:E2; [discriminate|].
+      clear E H. induction m as [|[k e] m IH]; simpl in E2; [discriminate|].
+      simpl. unfold map_elem at 1. simpl.
+      destruct (is_str e || is_null e) eqn:Ea.
+      - rewrite (IH E2). destruct (str_elem e); reflexivity.
+      - apply orb_false_iff in Ea as [E1 E3]. destruct e; simpl in *; try discriminate; reflexivity. }
+    now rewrite X.
+Qed.
+
+(* a well-shaped value is stored, the field ends up set, strings and maps keep their content *)
+Lemma has_type_true t v : has_type t v = Some true ->
+  exists x, store t VUnset v = Some x /\ is_set x = true
+            /\ (t = TStr -> exists s, v = JStr s /\ x = VStr s)
+            /\ (t = TStrMap -> exists kv new, v = JObj kv /\ x = VMap new /\ map fst new = map fst kv).
+Proof.
+  destruct t, v; simpl; intros H; try discriminate.
+  - eexists; repeat split; try discriminate. intros _. eauto.
+  - eexists; repeat split; discriminate.
+  - eexists; repeat split; discriminate.
+  - eexists; repeat split; discriminate.
+  - destruct (elems_true is_num num_elem l) as (ys & ->); [|exact H|].
+    + intros e; destruct e; simpl; intros; discriminate.
+    + simpl. eexists; repeat split; discriminate.
+  - destruct (elems_true is_str str_elem l) as (ys & ->); [|exact H|].
+    + intros e; destruct e; simpl; intros; discriminate.
+    + simpl. eexists; repeat split; discriminate.
+  - (* TStrMap *)
+    assert (X : exists new, map_opt map_elem m = Some new /\ map fst new = map fst m).
+    { unfold elems_verdict in H. destruct (forallb is_str (map snd m)) eqn:E;
+        [|revert H; destruct (forallb (fun e : json => is_str e || is_null e) (map snd m)); intros H; discriminate H].
+      clear H. induction m as [|[k e] m IH]; [exists []; auto|].
+      simpl in E. apply andb_true_iff in E as [E1 E2]. destruct (IH E2) as (new & Hn & Hf).
+      simpl. unfold map_elem at 1. simpl. destruct e; simpl in E1; try discriminate. simpl.
+      rewrite Hn. exists ((k, s) :: new). simpl. now rewrite Hf. }
+    destruct X as (new & -> & Hf). simpl.
+    eexists; repeat split; try discriminate. intros _. eauto.
+  - eexists; repeat split; discriminate.
+Qed.
+
+Lemma clean_doc_unpack (sch : schema) m : clean_doc sch m = true ->
+  forallb (fun kv => clean_key sch (fst kv)) m = true
+  /\ (forall f, In f sch -> (count_key (fst f) m <= 1)%nat).
+Proof.
+  unfold clean_doc. intros H. apply andb_true_iff in H as [H1 H2]. split; [exact H1|].
+  intros f Hf. rewrite forallb_forall in H2. specialize (H2 f Hf). now apply Nat.leb_le.
+Qed.
+
+Lemma struct_decoded (sch : schema) (D : distinctb (map fst sch) = true) m :
+  clean_doc sch m = true ->
+  match decode_members sch m [] with
+  | Some st => forall n t, In (n, t) sch ->
+      match assoc n m with
+      | Some v => store t VUnset v = Some (sget st n)
+      | None => sget st n = VUnset
+      end
+  | None => exists n t v, In (n, t) sch /\ assoc n m = Some v /\ store t VUnset v = None
+  end.
+Proof.
+  intros C. destruct (clean_doc_unpack sch m C) as [C1 C2].
+  pose proof (dm_gen sch D m [] C1 C2) as G.
+  assert (Z : forall (kv : bytes * json) (f : bytes * ftype), In kv m -> In f sch -> fst f = fst kv -> sget [] (fst kv) = VUnset)
+    by reflexivity.
+  specialize (G Z). destruct (decode_members sch m []) as [st|]; [|exact G].
+  intros n t I. specialize (G n t I). destruct (assoc n m); exact G.
+Qed.
+
+Lemma typed_true_fields (sch : schema) m : typed_verdict sch m = Some true ->
+  forall n t, In (n, t) sch -> forall v, assoc n m = Some v -> has_type t v = Some true.
+Proof.
+  unfold typed_verdict. rewrite vall_true. intros H n t I v A.
+  apply H. apply in_map_iff. exists (n, t). split; [|exact I]. simpl. now rewrite A.
+Qed.
+Lemma typed_false_field (sch : schema) m : typed_verdict sch m = Some false ->
+  exists n t v, In (n, t) sch /\ assoc n m = Some v /\ has_type t v = Some false.
+Proof.
+  unfold typed_verdict. rewrite vall_false. intros (x & Hx & E). apply in_map_iff in Hx as ([n t] & Hf & I).
+  simpl in Hf. subst x. destruct (assoc n m) as [v|] eqn:A; [|discriminate]. exists n, t, v. auto.
+Qed.
+
+(* Some true: the decoder takes the document;  Some false: it does not *)
+Lemma struct_true (sch : schema) (D : distinctb (map fst sch) = true) m :
+  clean_doc sch m = true -> typed_verdict sch m = Some true ->
+  exists st, decode_members sch m [] = Some st
+    /\ forall n t, In (n, t) sch ->
+       match assoc n m with
+       | Some v => has_type t v = Some true /\ store t VUnset v = Some (sget st n)
+       | None => sget st n = VUnset
+       end.
+Proof.
+  intros C T. pose proof (struct_decoded sch D m C) as G.
+  destruct (decode_members sch m []) as [st|].
+  - exists st. split; [reflexivity|]. intros n t I. specialize (G n t I).
+    destruct (assoc n m) as [v|] eqn:A; [|exact G]. split; [|exact G].
+    apply (typed_true_fields sch m T n t I v A).
+  - destruct G as (n & t & v & I & A & S). exfalso.
+    pose proof (typed_true_fields sch m T n t I v A) as HT.
+    destruct (has_type_true t v HT) as (x & Sx & _). congruence.
+Qed.
+Lemma struct_false (sch : schema) (D : distinctb (map fst sch) = true) m :
+  clean_doc sch m = true -> typed_verdict sch m = Some false -> decode_members sch m [] = None.
+Proof.
+  intros C T. pose proof (struct_decoded sch D m C) as G.
+  destruct (decode_members sch m []) as [st|]; [|reflexivity]. exfalso.
+  destruct (typed_false_field sch m T) as (n & t & v & I & A & HF).
+  specialize (G n t I). rewrite A in G. rewrite (has_type_false t VUnset v HF) in G. discriminate.
+Qed.
+
+(* ------------------------------------------------------------------ metrics: documented rules vs. ValidateMetricOperation *)
+Lemma metric_distinct : distinctb (map fst metric_schema) = true. Proof. reflexivity. Qed.
+Lemma admission_distinct : distinctb (map fst admission_schema) = true. Proof. reflexivity. Qed.
+Lemma conversion_distinct : distinctb (map fst conversion_schema) = true. Proof. reflexivity. Qed.
+Lemma metric_doc_is_schema : metric_doc = metric_schema. Proof. reflexivity. Qed.
+Lemma admission_doc_is_schema : admission_doc = admission_schema. Proof. reflexivity. Qed.
+Lemma conversion_doc_is_schema : conversion_doc = conversion_schema. Proof. reflexivity. Qed.
+
+Section decoded_fields.
+  Variable sch : schema.
+  Variable m : list (bytes * json).
+  Variable st : state.
+  Hypothesis F : forall n t, In (n, t) sch ->
+       match assoc n m with
+       | Some v => has_type t v = Some true /\ store t VUnset v = Some (sget st n)
+       | None => sget st n = VUnset
+       end.
+
+  Lemma field_set n t : In (n, t) sch -> is_set (sget st n) = has_key n m.
+  Proof.
+    intros I. specialize (F n t I). unfold has_key. destruct (assoc n m) as [v|].
+    - destruct F as [HT S]. destruct (has_type_true t v HT) as (x & Sx & IS & _). congruence.
+    - now rewrite F.
+  Qed.
+
+  Lemma field_str n : In (n, TStr) sch ->
+    (assoc n m = None /\ sget st n = VUnset) \/ (exists s, assoc n m = Some (JStr s) /\ sget st n = VStr s).
+  Proof.
+    intros I. specialize (F n TStr I). destruct (assoc n m) as [v|]; [right|left; auto].
+    destruct F as [HT S]. destruct (has_type_true TStr v HT) as (x & Sx & _ & Hs & _).
+    destruct (Hs eq_refl) as (s & -> & ->). exists s. split; [reflexivity|]. congruence.
+  Qed.
+
+  Lemma field_map n : In (n, TStrMap) sch ->
+    (assoc n m = None /\ sget st n = VUnset)
+    \/ (exists kv new, assoc n m = Some (JObj kv) /\ sget st n = VMap new /\ map fst new = map fst kv).
+  Proof.
+    intros I. specialize (F n TStrMap I). destruct (assoc n m) as [v|]; [right|left; auto].
+    destruct F as [HT S]. destruct (has_type_true TStrMap v HT) as (x & Sx & _ & _ & Hm).
+    destruct (Hm eq_refl) as (kv & new & -> & -> & E). exists kv, new. repeat split; auto. congruence.
+  Qed.
+End decoded_fields.
+
+Ltac in_schema := unfold metric_schema, admission_schema, conversion_schema; simpl; tauto.
+
+Lemma eqb_excl a x y : x <> y -> bytes_eqb a x = true -> bytes_eqb a y = true -> False.
+Proof. intros N E1 E2. apply bytes_eqb_eq in E1. apply bytes_eqb_eq in E2. congruence. Qed.
+
+Lemma metric_rules_validate m st :
+  (forall n t, In (n, t) metric_schema ->
+       match assoc n m with
+       | Some v => has_type t v = Some true /\ store t VUnset v = Some (sget st n)
+       | None => sget st n = VUnset
+       end) ->
+  forall b, metric_rules m = Some b -> validate_op (op_of_state st) = b.
+Proof.
+  intros F b.
+  assert (Hadd : is_set (sget st k_add) = has_key k_add m) by (apply (field_set metric_schema m st F k_add TNumPtr); in_schema).
+  assert (Hset : is_set (sget st k_set) = has_key k_set m) by (apply (field_set metric_schema m st F k_set TNumPtr); in_schema).
+  assert (Hval : is_set (sget st k_value) = has_key k_value m) by (apply (field_set metric_schema m st F k_value TNumPtr); in_schema).
+  assert (Hbuc : is_set (sget st k_buckets) = has_key k_buckets m) by (apply (field_set metric_schema m st F k_buckets TNums); in_schema).
+  assert (Hn := field_str metric_schema m st F k_name). assert (Hg := field_str metric_schema m st F k_group).
+  assert (Ha := field_str metric_schema m st F k_action).
+  set (hadd := has_key k_add m) in *. set (hset := has_key k_set m) in *.
+  set (hval := has_key k_value m) in *. set (hbuc := has_key k_buckets m) in *.
+  unfold metric_rules, validate_op, op_of_state, empty_key, doc_action, str_key.
+  cbn [m_name m_group m_action m_add m_set m_value m_buckets m_labels].
+  rewrite Hadd, Hset, Hval, Hbuc.
+  fold hadd hset hval hbuc. unfold has_key.
+  destruct (Hn ltac:(in_schema)) as [[An Sn]|(sn & An & Sn)];
+  destruct (Hg ltac:(in_schema)) as [[Ag Sg]|(sg & Ag & Sg)];
+  destruct (Ha ltac:(in_schema)) as [[Aa Sa]|(sa & Aa & Sa)];
+  rewrite An, Ag, Aa, Sn, Sg, Sa; clear;
+  try (destruct sn as [|cn ln]); try (destruct sg as [|cg lg]); try (destruct sa as [|ca la]);
+  destruct hadd, hset, hval, hbuc;
+  cbv beta iota delta [andb negb orb implb str_of is_nil];
+  try (generalize (ca :: la); intros a;
+       destruct (bytes_eqb a k_set) eqn:ES; destruct (bytes_eqb a k_add) eqn:EA;
+       destruct (bytes_eqb a s_observe) eqn:EO; destruct (bytes_eqb a s_expire) eqn:EE;
+       try (exfalso; apply (eqb_excl a k_set k_add); [discriminate | assumption | assumption]);
+       try (exfalso; apply (eqb_excl a k_set s_observe); [discriminate | assumption | assumption]);
+       try (exfalso; apply (eqb_excl a k_set s_expire); [discriminate | assumption | assumption]);
+       try (exfalso; apply (eqb_excl a k_add s_observe); [discriminate | assumption | assumption]);
+       try (exfalso; apply (eqb_excl a k_add s_expire); [discriminate | assumption | assumption]);
+       try (exfalso; apply (eqb_excl a s_observe s_expire); [discriminate | assumption | assumption]);
+       clear ES EA EO EE);
+  cbv; intros Q; first [discriminate Q | (inversion Q; reflexivity)].
+Qed.
+
+(* one document: the text-side verdict, where there is one, is the decoder's (+ validation's) answer *)
+Definition metric_doc_ok (d : json) : bool :=
+  match decode_struct metric_schema d with Some st => validate_op (op_of_state st) | None => false end.
+
+Lemma metric_doc_agree d b : doc_verdict metric_doc metric_rules d = Some b -> metric_doc_ok d = b.
+Proof.
+  rewrite metric_doc_is_schema. unfold doc_verdict, metric_doc_ok, decode_struct.
+  destruct d as [| | | | | |m]; try discriminate; try (intros Q; inversion Q; reflexivity).
+  destruct (clean_doc metric_schema m) eqn:C; [|discriminate].
+  destruct (typed_verdict metric_schema m) as [[|]|] eqn:T; [| |discriminate].
+  - intros R. destruct (struct_true metric_schema metric_distinct m C T) as (st & -> & F).
+    apply (metric_rules_validate m st F b R).
+  - intros Q; inversion Q. now rewrite (struct_false metric_schema metric_distinct m C T).
+Qed.
+
+Definition struct_ok (sch : schema) (d : json) : bool :=
+  match decode_struct sch d with Some _ => true | None => false end.
+
+Lemma plain_doc_agree (sch : schema) (D : distinctb (map fst sch) = true) d b :
+  doc_verdict sch no_rules d = Some b -> struct_ok sch d = b.
+Proof.
+  unfold doc_verdict, struct_ok, decode_struct, no_rules.
+  destruct d as [| | | | | |m]; try discriminate; try (intros Q; inversion Q; reflexivity).
+  destruct (clean_doc sch m) eqn:C; [|discriminate].
+  destruct (typed_verdict sch m) as [[|]|] eqn:T; [| |discriminate].
+  - intros Q; inversion Q. now destruct (struct_true sch D m C T) as (st & -> & F).
+  - intros Q; inversion Q. now rewrite (struct_false sch D m C T).
+Qed.
+
+(* a list of documents *)
+Definition docs_ok (docs : list json) : bool :=
+  match map_opt (fun d => option_map op_of_state (decode_struct metric_schema d)) docs with
+  | Some ops => forallb validate_op ops
+  | None => false
+  end.
+
+Lemma docs_ok_cons d docs : docs_ok (d :: docs) = metric_doc_ok d && docs_ok docs.
+Proof.
+  unfold docs_ok, metric_doc_ok. simpl.
+  destruct (decode_struct metric_schema d) as [st|]; simpl; [|reflexivity].
+  destruct (map_opt _ docs) as [ops|]; simpl; [reflexivity | now rewrite andb_false_r].
+Qed.
+
+Lemma docs_agree docs b :
+  vall (map (doc_verdict metric_doc metric_rules) docs) = Some b -> docs_ok docs = b.
+Proof.
+  induction docs as [|d docs IH] in b |- *; simpl.
+  - intros Q; inversion Q; reflexivity.
+  - rewrite docs_ok_cons. destruct b.
+    + rewrite vand_true. intros [H1 H2]. now rewrite (metric_doc_agree d true H1), (IH true H2).
+    + rewrite vand_false. intros [H1|H2].
+      * now rewrite (metric_doc_agree d false H1).
+      * rewrite (IH false H2). apply andb_false_r.
+Qed.
+
+Lemma stream_nil : parse_stream [] = Some []. Proof. reflexivity. Qed.
+
+Lemma metrics_ok_docs s :
+  (metrics_decodes (FText s) && metrics_valid (FText s))
+  = match parse_stream s with Some docs => docs_ok docs | None => false end.
+Proof.
+  unfold metrics_decodes, metrics_valid, metrics_ops, docs_ok. destruct s as [|c r]; [reflexivity|].
+  destruct (parse_stream (c :: r)) as [docs|]; [|reflexivity].
+  destruct (map_opt _ docs); reflexivity.
+Qed.
+
+Lemma metrics_agree k b : v_metrics k = Some b -> (metrics_decodes k && metrics_valid k) = b.
+Proof.
+  destruct k as [| | | |s]; simpl; try (intros Q; inversion Q; reflexivity).
+  change (match metrics_ops s with Some _ => true | None => false end) with (metrics_decodes (FText s)).
+  change (match metrics_ops s with Some ops => forallb validate_op ops | None => false end) with (metrics_valid (FText s)).
+  rewrite metrics_ok_docs. destruct (parse_stream s) as [docs|].
+  - apply docs_agree.
+  - intros Q; inversion Q; reflexivity.
+Qed.
+
+(* one response document *)
+Lemma single_agree (sch dsch : schema) (E : dsch = sch) (D : distinctb (map fst sch) = true) s b :
+  single_verdict dsch s = Some b ->
+  match s with
+  | [] => true
+  | _ => match parse_single s with Some d => struct_ok sch d | None => false end
+  end = b.
+Proof.
+  subst dsch. unfold single_verdict. destruct s as [|c r]; [intros Q; inversion Q; reflexivity|].
+  destruct (parse_single (c :: r)) as [d|]; [apply (plain_doc_agree sch D) | intros Q; inversion Q; reflexivity].
+Qed.
+
+Lemma admission_agree k b : v_admission k = Some b -> admission_parses k = b.
+Proof.
+  destruct k as [| | | |s]; simpl; try (intros Q; inversion Q; reflexivity).
+  intros H. apply (single_agree admission_schema admission_doc admission_doc_is_schema admission_distinct) in H.
+  unfold admission_ok. unfold struct_ok in H. exact H.
+Qed.
+
+(* the conversion response: the decoder reads ONE document; apart from the trigger's texts that is
+   the same as demanding exactly one *)
+Lemma first_single s d t : parse_first s = Some (d, t) -> all_ws t = true -> parse_single s = Some d.
+Proof.
+  unfold parse_first, parse_single, parse_single_res.
+  destruct (parse_value (fuel_for s) s) as [[v t']| |]; try discriminate.
+  intros Q; inversion Q; subst. intros ->. reflexivity.
+Qed.
+Lemma single_first s d : parse_single s = Some d -> exists t, parse_first s = Some (d, t) /\ all_ws t = true.
+Proof.
+  unfold parse_first, parse_single, parse_single_res.
+  destruct (parse_value (fuel_for s) s) as [[v t']| |]; try discriminate.
+  destruct (all_ws t') eqn:W; [|discriminate]. intros Q; inversion Q; subst. eauto.
+Qed.
+
+Definition conv_trailing (s : bytes) : bool :=
+  match s with
+  | [] => false
+  | _ => match parse_first s with
+         | Some (d, t) => struct_ok conversion_schema d && negb (all_ws t)
+         | None => false
+         end
+  end.
+
+Lemma conversion_agree_text s b :
+  conv_trailing s = false -> single_verdict conversion_doc s = Some b -> conversion_ok s = b.
+Proof.
+  intros NT H.
+  apply (single_agree conversion_schema conversion_doc conversion_doc_is_schema conversion_distinct) in H.
+  unfold conversion_ok. unfold conv_trailing in NT. destruct s as [|c r]; [exact H|].
+  fold (struct_ok conversion_schema) in *.
+  destruct (parse_single (c :: r)) as [d|] eqn:PS.
+  - destruct (single_first _ _ PS) as (t & -> & W). exact H.
+  - subst b. destruct (parse_first (c :: r)) as [[d t]|] eqn:PF; [|reflexivity].
+    destruct (struct_ok conversion_schema d) eqn:SO; [|exact SO].
+    simpl in NT. apply negb_false_iff in NT. rewrite (first_single _ _ _ PF NT) in PS. discriminate.
+Qed.
+
+Lemma T_conv_trailing i : T_conv i = match i_conversion i with FText s => conv_trailing s | _ => false end.
+Proof. unfold T_conv, conv_trailing, struct_ok. destruct (i_conversion i); reflexivity. Qed.
+
+Lemma conversion_agree i b : T_conv i = false -> v_conversion (i_conversion i) = Some b -> conversion_parses (i_conversion i) = b.
+Proof.
+  rewrite T_conv_trailing. destruct (i_conversion i) as [| | | |s]; simpl; try (intros _ Q; inversion Q; reflexivity).
+  apply conversion_agree_text.
+Qed.
+
+Lemma patch_agree k b : v_patch k = Some b -> patch_parses k = b.
+Proof. destruct k; simpl; intros Q; inversion Q; reflexivity. Qed.
+
+(* ------------------------------------------------------------------ the probe metric *)
+Lemma field_of_in (sch : schema) k f : field_of sch k = Some f -> In f sch.
+Proof.
+  unfold field_of. destruct (find_field (fun n0 => bytes_eqb n0 k) sch) as [g|] eqn:E1; intros H.
+  - inversion H; subst. now apply find_field_some in E1 as [I _].
+  - now apply find_field_some in H as [I _].
+Qed.
+
+Lemma store_str_inv old v s : store TStr old v = Some (VStr s) -> v = JStr s \/ (v = JNull /\ old = VStr s).
+Proof. destruct v; simpl; intros H; try discriminate; inversion H; subst; auto. Qed.
+
+(* the decoded name is a string that stands in the document *)
+Lemma dm_name m : forall st0 st, decode_members metric_schema m st0 = Some st ->
+  forall s, sget st k_name = VStr s ->
+  sget st0 k_name = VStr s \/ exists kv, In kv m /\ snd kv = JStr s.
+Proof.
+  induction m as [|[k v] m IH]; intros st0 st H s Hs.
+  - simpl in H. inversion H; subst. auto.
+  - cbn [decode_members] in H. destruct (field_of metric_schema k) as [[n t]|] eqn:F.
+    + destruct (store t (sget st0 n) v) as [x|] eqn:S; [|discriminate].
+      destruct (IH _ _ H s Hs) as [H0|(kv & I & E)]; [|right; exists kv; simpl; auto].
+      simpl in H0. destruct (bytes_eqb n k_name) eqn:En; [|auto].
+      apply bytes_eqb_eq in En. subst n x.
+      assert (t = TStr).
+      { apply (distinct_type metric_schema metric_distinct k_name t TStr); [apply (field_of_in _ _ _ F) | in_schema]. }
+      subst t. destruct (store_str_inv _ _ _ S) as [->|[-> E]]; [right; exists (k, JStr s); simpl; auto | auto].
+    + destruct (IH _ _ H s Hs) as [H0|(kv & I & E)]; [auto | right; exists kv; simpl; auto].
+Qed.
+
+Lemma no_mention_name d st : decode_struct metric_schema d = Some st -> mentions d = false ->
+  bytes_eqb (m_name (op_of_state st)) probe_name = false.
+Proof.
+  intros H M. unfold op_of_state. cbn [m_name].
+  destruct (sget st k_name) as [|s| | | | | | |] eqn:Sn; try reflexivity.
+  cbn [str_of]. destruct (bytes_eqb s probe_name) eqn:E; [|reflexivity]. exfalso.
+  apply bytes_eqb_eq in E. subst s.
+  destruct d as [| | | | | |m]; simpl in H; try discriminate.
+  - inversion H; subst. discriminate.
+  - destruct (dm_name m [] st H probe_name Sn) as [H0|(kv & I & E)]; [discriminate|].
+    simpl in M. assert (X : existsb (fun kv0 => json_eqb (snd kv0) (JStr probe_name)) m = true).
+    { apply existsb_exists. exists kv. split; [exact I|]. rewrite E. apply json_eqb_refl. }
+    congruence.
+Qed.
+
+Definition good_probe (o : mop) : bool :=
+  is_nil (m_group o)
+  && (bytes_eqb (m_action o) k_set || bytes_eqb (m_action o) k_add)
+  && forallb (fun kv => plain_label (fst kv)) (m_labels o).
+
+Lemma metric_effect_yes ops :
+  filter (fun o => bytes_eqb (m_name o) probe_name) ops <> [] ->
+  (forall o, In o ops -> bytes_eqb (m_name o) probe_name = true -> good_probe o = true) ->
+  metric_effect ops = TYes.
+Proof.
+  unfold metric_effect. intros NE G.
+  destruct (filter (fun o => bytes_eqb (m_name o) probe_name) ops) as [|o cs] eqn:E; [contradiction|].
+  assert (A : forallb good_probe (o :: cs) = true).
+  { apply forallb_forall. intros x Hx. rewrite <- E in Hx. apply filter_In in Hx as [I N]. now apply G. }
+  unfold good_probe in A. now rewrite A.
+Qed.
+Lemma metric_effect_no ops :
+  (forall o, In o ops -> bytes_eqb (m_name o) probe_name = false) -> metric_effect ops = TNo.
+Proof.
+  unfold metric_effect. intros G.
+  destruct (filter (fun o => bytes_eqb (m_name o) probe_name) ops) as [|o cs] eqn:E; [reflexivity|].
+  assert (I : In o (filter (fun o => bytes_eqb (m_name o) probe_name) ops)) by (rewrite E; simpl; auto).
+  apply filter_In in I as [I N]. rewrite (G o I) in N. discriminate.
+Qed.
+
+(* a plain probe document decodes to a "good" operation named after the probe *)
+Lemma plain_probe_op m st :
+  (forall n t, In (n, t) metric_schema ->
+       match assoc n m with
+       | Some v => has_type t v = Some true /\ store t VUnset v = Some (sget st n)
+       | None => sget st n = VUnset
+       end) ->
+  metric_rules m = Some true -> plain_probe (JObj m) = true ->
+  bytes_eqb (m_name (op_of_state st)) probe_name = true /\ good_probe (op_of_state st) = true.
+Proof.
+  intros F R PP.
+  assert (Hadd : is_set (sget st k_add) = has_key k_add m) by (apply (field_set metric_schema m st F k_add TNumPtr); in_schema).
+  assert (Hset : is_set (sget st k_set) = has_key k_set m) by (apply (field_set metric_schema m st F k_set TNumPtr); in_schema).
+  assert (Hn := field_str metric_schema m st F k_name ltac:(in_schema)).
+  assert (Hg := field_str metric_schema m st F k_group ltac:(in_schema)).
+  assert (Ha := field_str metric_schema m st F k_action ltac:(in_schema)).
+  assert (Hl := field_map metric_schema m st F k_labels ltac:(in_schema)).
+  unfold plain_probe, doc_action, str_key in PP. unfold metric_rules, empty_key, doc_action, str_key in R.
+  unfold good_probe, op_of_state. cbn [m_name m_group m_action m_labels].
+  rewrite Hadd, Hset.
+  set (hadd := has_key k_add m) in *. set (hset := has_key k_set m) in *.
+  destruct Hn as [[An Sn]|(sn & An & Sn)]; rewrite An in PP; [discriminate|].
+  rewrite Sn. cbn [str_of].
+  destruct Hg as [[Ag Sg]|(sg & Ag & Sg)].
+  2:{ unfold has_key in PP. rewrite Ag in PP. cbn in PP.
+      destruct (match assoc k_action m with Some (JStr s) => Some s | _ => None end);
+        [|destruct hadd; [|destruct hset]]; try discriminate PP;
+        rewrite andb_false_r in PP; discriminate PP. }
+  rewrite Sg. cbn [str_of is_nil]. rewrite andb_true_l.
+  assert (L : forallb (fun kv => plain_label (fst kv)) (labels_of (sget st k_labels)) = true
+              /\ exists a, match match assoc k_action m with Some (JStr s) => Some s | _ => None end with
+                           | Some a0 => Some a0
+                           | None => if hadd then Some k_add else if hset then Some k_set else None
+                           end = Some a /\ bytes_eqb sn probe_name = true
+                           /\ (bytes_eqb a k_set || bytes_eqb a k_add) = true).
+  { destruct (match match assoc k_action m with Some (JStr s) => Some s | _ => None end with
+              | Some a0 => Some a0
+              | None => if hadd then Some k_add else if hset then Some k_set else None
+              end) as [a|]; [|discriminate PP].
+    apply andb_true_iff in PP as [PP P4]. apply andb_true_iff in PP as [PP P3]. apply andb_true_iff in PP as [P1 P2].
+    split; [|exists a; auto].
+    destruct Hl as [[Al Sl]|(kv & new & Al & Sl & El)].
+    - now rewrite Sl.
+    - rewrite Sl. cbn [labels_of]. rewrite Al in P4.
+      clear - P4 El. revert kv P4 El. induction new as [|[k x] new IH]; intros [|[k' x'] kv] P4 El; simpl in *; try discriminate; [reflexivity|].
+      inversion El; subst. apply andb_true_iff in P4 as [Q1 Q2]. rewrite Q1. simpl. now apply (IH kv). }
+  destruct L as (L1 & a & DA & PN & AS). rewrite L1, andb_true_r. split; [exact PN|].
+  unfold has_key in R. rewrite An, Ag, DA in R.
+  destruct Ha as [[Aa Sa]|(sa & Aa & Sa)]; rewrite Aa in R, DA; rewrite Sa; cbn [str_of].
+  - (* shortcut *)
+    destruct hadd, hset; cbn [andb negb orb]; try discriminate DA; try reflexivity.
+    exfalso. destruct sn, (assoc k_value m); cbn in R; discriminate R.
+  - inversion DA; subst a.
+    destruct hadd, hset; cbn [andb negb orb]; try exact AS;
+      exfalso; destruct sn, sa, (assoc k_value m); cbn in R; discriminate R.
+Qed.
+
+Lemma map_opt_in A B (f : A -> option B) l ys : map_opt f l = Some ys ->
+  (forall y, In y ys -> exists x, In x l /\ f x = Some y)
+  /\ (forall x, In x l -> exists y, f x = Some y /\ In y ys).
+Proof.
+  revert ys. induction l as [|a l IH]; intros ys H; simpl in H.
+  - inversion H; subst. split; intros ? [].
+  - destruct (f a) as [y0|] eqn:E; [|discriminate]. destruct (map_opt f l) as [ys0|]; [|discriminate].
+    inversion H; subst. destruct (IH ys0 eq_refl) as [I1 I2]. split.
+    + intros y [<-|Hy]; [exists a; simpl; auto|]. destruct (I1 y Hy) as (x & Hx & Ex). exists x; simpl; auto.
+    + intros x [<-|Hx]; [exists y0; simpl; auto|]. destruct (I2 x Hx) as (y & Ey & Hy). exists y; simpl; auto.
+Qed.
+Arguments map_opt_in {A B} f l ys _.
+
+Lemma metrics_ops_docs s docs : parse_stream s = Some docs ->
+  metrics_ops s = map_opt (fun d => option_map op_of_state (decode_struct metric_schema d)) docs.
+Proof.
+  unfold metrics_ops. destruct s as [|c r]; intros H; [|now rewrite H].
+  rewrite stream_nil in H. inversion H; reflexivity.
+Qed.
+
+Lemma doc_true_fields d : doc_verdict metric_doc metric_rules d = Some true -> plain_probe d = true ->
+  forall st, decode_struct metric_schema d = Some st ->
+  bytes_eqb (m_name (op_of_state st)) probe_name = true /\ good_probe (op_of_state st) = true.
+Proof.
+  rewrite metric_doc_is_schema. destruct d as [| | | | | |m]; try discriminate.
+  unfold doc_verdict. destruct (clean_doc metric_schema m) eqn:C; [|discriminate].
+  destruct (typed_verdict metric_schema m) as [[|]|] eqn:T; try discriminate.
+  intros R PP st H. destruct (struct_true metric_schema metric_distinct m C T) as (st' & H' & F).
+  simpl in H. rewrite H' in H. inversion H; subst st'.
+  apply (plain_probe_op m st F R PP).
+Qed.
+
+Lemma expect_agree k b : expect_metric k = Some b -> metrics_decodes k = true ->
+  metrics_effect k = if b then TYes else TNo.
+Proof.
+  destruct k as [| | | |s]; simpl; try (intros Q; inversion Q; reflexivity).
+  destruct (parse_stream s) as [docs|] eqn:PS.
+  2:{ intros Q; inversion Q. unfold metrics_ops. destruct s; [reflexivity|]. now rewrite PS. }
+  rewrite (metrics_ops_docs s docs PS).
+  destruct (map_opt (fun d => option_map op_of_state (decode_struct metric_schema d)) docs) as [ops|] eqn:MO;
+    [|intros _ Q; discriminate Q].
+  destruct (map_opt_in _ docs ops MO) as [I1 I2]. intros H _.
+  destruct (existsb mentions docs) eqn:EM; simpl in H.
+  - destruct (vall (map (doc_verdict metric_doc metric_rules) docs)) as [[|]|] eqn:V; try discriminate.
+    destruct (forallb (fun d => negb (mentions d) || plain_probe d) docs) eqn:FP; [|discriminate].
+    inversion H; subst b. rewrite vall_true in V. rewrite forallb_forall in FP.
+    assert (DV : forall d, In d docs -> doc_verdict metric_doc metric_rules d = Some true).
+    { intros d Hd. apply V. now apply in_map. }
+    apply metric_effect_yes.
+    + apply existsb_exists in EM as (d & Hd & Md).
+      destruct (I2 d Hd) as (o & Eo & Ho).
+      destruct (decode_struct metric_schema d) as [st|] eqn:DS; [|discriminate]. simpl in Eo. inversion Eo; subst o.
+      specialize (FP d Hd). rewrite Md in FP. simpl in FP.
+      destruct (doc_true_fields d (DV d Hd) FP st DS) as [N _].
+      intros E. assert (X : In (op_of_state st) (filter (fun o => bytes_eqb (m_name o) probe_name) ops))
+        by (apply filter_In; auto).
+      rewrite E in X. contradiction.
+    + intros o Ho N. destruct (I1 o Ho) as (d & Hd & Ed).
+      destruct (decode_struct metric_schema d) as [st|] eqn:DS; [|discriminate]. simpl in Ed. inversion Ed; subst o.
+      specialize (FP d Hd). destruct (mentions d) eqn:Md; simpl in FP.
+      * now destruct (doc_true_fields d (DV d Hd) FP st DS).
+      * rewrite (no_mention_name d st DS Md) in N. discriminate.
+  - inversion H; subst b. apply metric_effect_no. intros o Ho.
+    destruct (I1 o Ho) as (d & Hd & Ed).
+    destruct (decode_struct metric_schema d) as [st|] eqn:DS; [|discriminate]. simpl in Ed. inversion Ed; subst o.
+    apply (no_mention_name d st DS).
+    destruct (mentions d) eqn:Md; [|reflexivity].
+    assert (existsb mentions docs = true) by (apply existsb_exists; eauto). congruence.
+Qed.
+
+(* ------------------------------------------------------------------ the execution *)
+Definition model_ok (i : input) : bool :=
+  metrics_decodes (i_metrics i) && admission_parses (i_admission i) && conversion_parses (i_conversion i)
+  && patch_parses (i_patch i) && metrics_valid (i_metrics i).
+
+Ltac run_cases i :=
+  unfold run, failed; destruct (prepare _ 0) as [created ok]; destruct ok; cbn [negb];
+  [ destruct (Z.eqb (i_exit i) 0) eqn:EX; cbn [negb];
+    [ destruct (metrics_decodes (i_metrics i)) eqn:MD; cbn [negb];
+      [ destruct (admission_parses (i_admission i)) eqn:AP; cbn [negb];
+        [ destruct (conversion_parses (i_conversion i)) eqn:CP; cbn [negb];
+          [ destruct (patch_parses (i_patch i)) eqn:PP; cbn [negb];
+            [ destruct (metrics_valid (i_metrics i)) eqn:MV; cbn [negb] | ] | ] | ] | ] | ] | ].
+
+Lemma run_remaining i : o_remaining (run i) = 0.
+Proof. run_cases i; try reflexivity. apply N.sub_diag. Qed.
 
 Lemma run_success_iff i :
   o_started (run i) = true ->
-  (o_success (run i) = true <-> (i_exit i = 0%Z /\ all_parse i = true)).
+  (o_success (run i) = true <-> (i_exit i = 0%Z /\ model_ok i = true)).
 Proof.
-  unfold run, all_parse. destruct (prepare _ 0) as [created ok]. destruct ok; simpl; [|discriminate].
-  intros _. destruct (Z.eqb (i_exit i) 0) eqn:E; simpl.
-  - apply Z.eqb_eq in E.
-    destruct (parses (i_metrics i)), (parses (i_admission i)), (parses (i_conversion i)), (parses (i_patch i));
-      simpl; split; intros H; try discriminate; try (split; [assumption | reflexivity]);
-      try (destruct H as [_ H]; discriminate); reflexivity.
-  - apply Z.eqb_neq in E. split; [discriminate | intros [H _]; contradiction].
+  unfold model_ok. run_cases i; cbn; intros S; try discriminate S;
+    (split; [intros H; try discriminate H | intros [H1 H2]; try discriminate H2]);
+    try (apply Z.eqb_eq in EX; auto; fail);
+    try (apply Z.eqb_neq in EX; contradiction).
+Qed.
+
+(* a non-zero exit: a failure, nothing applied *)
+Lemma run_nonzero_exit i : i_exit i <> 0%Z ->
+  o_success (run i) = false /\ o_metric_applied (run i) = false /\ o_metric_unknown (run i) = false
+  /\ o_patch_applied (run i) = false.
+Proof.
+  intros H. apply Z.eqb_neq in H. unfold run, failed. destruct (prepare _ 0) as [created ok].
+  destruct ok; cbn [negb]; [|auto]. rewrite H. cbn. auto.
 Qed.
 
 Lemma run_applied i :
-  (o_metric_applied (run i) = true -> o_success (run i) = true /\ i_metrics i = FValid) /\
-  (o_patch_applied (run i) = true -> o_success (run i) = true /\ i_patch i = FValid) /\
-  (o_success (run i) = true -> o_metric_applied (run i) = has_content (i_metrics i)
-                               /\ o_patch_applied (run i) = has_content (i_patch i)).
+  (o_metric_applied (run i) = true -> o_success (run i) = true /\ metrics_effect (i_metrics i) = TYes) /\
+  (o_metric_unknown (run i) = true -> o_success (run i) = true /\ metrics_effect (i_metrics i) = TMaybe) /\
+  (o_patch_applied (run i) = true -> i_exit i = 0%Z /\ i_patch i = FValid /\ metrics_decodes (i_metrics i) = true) /\
+  (o_success (run i) = true ->
+     o_patch_applied (run i) = patch_has_content (i_patch i)
+     /\ o_metric_applied (run i) = (match metrics_effect (i_metrics i) with TYes => true | _ => false end)
+     /\ o_metric_unknown (run i) = (match metrics_effect (i_metrics i) with TMaybe => true | _ => false end)).
 Proof.
-  unfold run. destruct (prepare _ 0) as [created ok]. destruct ok; simpl;
-    [|repeat split; discriminate].
-  destruct (Z.eqb (i_exit i) 0); simpl; [|repeat split; discriminate].
-  destruct (i_metrics i), (i_admission i), (i_conversion i), (i_patch i); simpl;
-    repeat split; try discriminate; reflexivity.
+  run_cases i; cbn; repeat split; try discriminate; auto;
+    try (destruct (metrics_effect (i_metrics i)); intros; try discriminate; auto; fail).
+  - now apply Z.eqb_eq.
+  - destruct (i_patch i); simpl in *; try discriminate; reflexivity.
+  - now apply Z.eqb_eq.
+  - destruct (i_patch i); simpl in *; try discriminate; reflexivity.
 Qed.
 
-(* non-zero exit: a failure, nothing applied *)
-Lemma run_nonzero_exit i : i_exit i <> 0%Z ->
-  o_success (run i) = false /\ o_metric_applied (run i) = false /\ o_patch_applied (run i) = false.
+(* text-side verdicts of the four files against the model's five tests *)
+Lemma all_wf_model i b : T_conv i = false -> all_wf i = Some b -> model_ok i = b.
 Proof.
-  intros H. unfold run. destruct (prepare _ 0) as [created ok]. destruct ok; simpl; [|auto].
-  apply Z.eqb_neq in H. rewrite H. simpl. auto.
+  intros NT. unfold all_wf, model_ok. cbn [vall fold_right]. destruct b.
+  - rewrite !vand_true. intros (Hm & Hp & Ha & Hc & _).
+    pose proof (metrics_agree _ _ Hm) as Em. apply andb_true_iff in Em as [E1 E2].
+    now rewrite E1, E2, (admission_agree _ _ Ha), (conversion_agree i _ NT Hc), (patch_agree _ _ Hp).
+  - rewrite !vand_false. intros [Hm|[Hp|[Ha|[Hc|Q]]]]; [| | | |discriminate Q].
+    + pose proof (metrics_agree _ _ Hm) as Em. apply andb_false_iff in Em as [E|E]; rewrite E; [reflexivity|].
+      apply andb_false_r.
+    + rewrite (patch_agree _ _ Hp). now rewrite andb_false_r.
+    + rewrite (admission_agree _ _ Ha). now rewrite andb_false_r.
+    + rewrite (conversion_agree i _ NT Hc). now rewrite !andb_false_r.
 Qed.
 
-(* the logic half of the property holds of the model for every input (the OS half is
-   taken over from the implementation's observation, see C12_Corr.model_obs) *)
-Theorem model_P_logic i o : P_logic i (model_obs (i, o)) = true.
+Lemma run_success_spec i b :
+  o_started (run i) = true -> T_conv i = false -> all_wf i = Some b ->
+  (o_success (run i) = true <-> (i_exit i = 0%Z /\ b = true)).
 Proof.
-  unfold P_logic, model_obs. cbn [ob_bad ob_started ob_status ob_tmp_after ob_metric_applied ob_patch_applied].
-  rewrite run_remaining. cbn [negb andb N.eqb].
+  intros S NT W. rewrite (run_success_iff i S), (all_wf_model i b NT W). reflexivity.
+Qed.
+
+Lemma run_started_success i : o_started (run i) = false -> o_success (run i) = false.
+Proof. run_cases i; cbn; try discriminate; reflexivity. Qed.
+
+(* the logic half of the property holds of the model for every input outside the trigger
+   (the OS half is taken over from the implementation's observation, see C12_Corr.model_obs) *)
+Theorem model_P_logic i o : T_conv i = false -> P_logic i (model_obs (i, o)) = true.
+Proof.
+  intros NT. unfold P_logic, model_obs.
+  cbn [ob_bad ob_started ob_status ob_tmp_after ob_metric_applied ob_patch_applied].
+  rewrite run_remaining. cbn [negb andb N.eqb]. rewrite andb_true_r.
   destruct (o_started (run i)) eqn:S.
-  - pose proof (run_success_iff i S) as SI. pose proof (run_applied i) as (A1 & A2 & A3).
-    destruct (o_success (run i)) eqn:Su.
-    + destruct (proj1 SI eq_refl) as [E AP]. rewrite E, AP. cbn.
-      destruct (A3 eq_refl) as [M Pp]. rewrite M, Pp. now rewrite !Bool.eqb_reflx.
-    + cbn [N.eqb]. assert (F : (Z.eqb (i_exit i) 0 && all_parse i) = false).
-      { destruct (Z.eqb (i_exit i) 0 && all_parse i) eqn:X; [|reflexivity].
-        apply andb_true_iff in X as [X1 X2]. apply Z.eqb_eq in X1.
-        assert (false = true) by (apply SI; auto). discriminate. }
-      rewrite F. cbn.
-      destruct (Z.eqb (i_exit i) 0) eqn:E; cbn; [reflexivity|].
-      apply Z.eqb_neq in E. destruct (run_nonzero_exit i E) as (_ & M & Pp). now rewrite M, Pp.
-  - assert (Su : o_success (run i) = false).
-    { unfold run in *. destruct (prepare _ 0) as [c ok]. destruct ok; simpl in *; [|reflexivity].
-      destruct (Z.eqb (i_exit i) 0); simpl in *; try discriminate.
-      destruct (parses (i_metrics i)); simpl in *; try discriminate.
-      destruct (parses (i_admission i)); simpl in *; try discriminate.
-      destruct (parses (i_conversion i)); simpl in *; try discriminate.
-      destruct (parses (i_patch i)); simpl in *; discriminate. }
-    rewrite Su. reflexivity.
+  2:{ now rewrite (run_started_success i S). }
+  pose proof (run_success_iff i S) as SI. pose proof (run_applied i) as (A1 & A2 & A3 & A4).
+  destruct (o_success (run i)) eqn:Su.
+  - destruct (proj1 SI eq_refl) as [E MO]. rewrite E. cbn [Z.eqb negb N.eqb andb].
+    destruct (A4 eq_refl) as (Pa & Ma & Mu).
+    assert (W : match all_wf i with Some b => Bool.eqb true b | None => true end = true).
+    { destruct (all_wf i) as [b|] eqn:W; [|reflexivity]. rewrite <- (all_wf_model i b NT W), MO. reflexivity. }
+    rewrite W. cbn [andb].
+    assert (MD : metrics_decodes (i_metrics i) = true).
+    { unfold model_ok in MO. destruct (metrics_decodes (i_metrics i)); [reflexivity | discriminate MO]. }
+    assert (X : match expect_metric (i_metrics i) with
+                | Some b => Bool.eqb (if o_metric_unknown (run i) then ob_metric_applied o else o_metric_applied (run i)) b
+                | None => true end = true).
+    { destruct (expect_metric (i_metrics i)) as [b|] eqn:EMt; [|reflexivity].
+      rewrite Mu, Ma, (expect_agree _ _ EMt MD). destruct b; reflexivity. }
+    rewrite X, Pa. cbn [andb]. unfold expect_patch, patch_has_content. apply Bool.eqb_reflx.
+  - cbn [N.eqb]. destruct (Z.eqb (i_exit i) 0) eqn:E; cbn [negb andb].
+    + destruct (all_wf i) as [b|] eqn:W; [|reflexivity].
+      apply Z.eqb_eq in E. destruct b; [|reflexivity].
+      assert (false = true) by (apply SI; split; [exact E | apply (all_wf_model i true NT W)]). discriminate.
+    + apply Z.eqb_neq in E. destruct (run_nonzero_exit i E) as (_ & M & U & Pp). rewrite M, U, Pp.
+      destruct (all_wf i) as [b|]; reflexivity.
 Qed.
+
+(* ------------------------------------------------------------------ whole classes of malformed texts fail the execution *)
+Definition nothing_done (i : input) : Prop :=
+  o_success (run i) = false /\ o_metric_applied (run i) = false /\ o_metric_unknown (run i) = false
+  /\ o_patch_applied (run i) = false.
+
+Lemma app_stray_nonnil (a w : bytes) c rest : a ++ w ++ c :: rest <> [].
+Proof. destruct a; [destruct w|]; discriminate. Qed.
+
+Lemma run_metrics_unreadable i s : i_metrics i = FText s -> s <> [] -> parse_stream s = None ->
+  v_metrics (i_metrics i) = Some false /\ nothing_done i.
+Proof.
+  intros E NN PS. rewrite E. simpl. rewrite PS. split; [reflexivity|].
+  assert (MD0 : metrics_decodes (i_metrics i) = false).
+  { rewrite E. unfold metrics_decodes, metrics_ops. destruct s; [contradiction|]. now rewrite PS. }
+  unfold nothing_done. run_cases i; cbn; try discriminate MD0; auto.
+Qed.
+
+Lemma run_admission_unreadable i s : i_admission i = FText s -> s <> [] -> parse_single s = None ->
+  v_admission (i_admission i) = Some false /\ o_success (run i) = false /\ o_metric_applied (run i) = false
+  /\ o_metric_unknown (run i) = false /\ o_patch_applied (run i) = false.
+Proof.
+  intros E NN PS. rewrite E. simpl. unfold single_verdict. destruct s as [|c r]; [contradiction|]. rewrite PS.
+  split; [reflexivity|].
+  assert (AP0 : admission_parses (i_admission i) = false).
+  { rewrite E. unfold admission_parses, admission_ok. now rewrite PS. }
+  run_cases i; cbn; try discriminate AP0; auto.
+Qed.
+
+Lemma run_conversion_unreadable i s : i_conversion i = FText s -> s <> [] -> parse_first s = None ->
+  v_conversion (i_conversion i) = Some false /\ o_success (run i) = false /\ o_metric_applied (run i) = false
+  /\ o_metric_unknown (run i) = false /\ o_patch_applied (run i) = false.
+Proof.
+  intros E NN PF. rewrite E. simpl. unfold single_verdict. destruct s as [|c r]; [contradiction|].
+  rewrite (parse_first_none_single _ PF). split; [reflexivity|].
+  assert (CP0 : conversion_parses (i_conversion i) = false).
+  { rewrite E. unfold conversion_parses, conversion_ok. now rewrite PF. }
+  run_cases i; cbn; try discriminate CP0; auto.
+Qed.
+
+(* a metrics file in which an accepted stream of documents is followed by optional whitespace and
+   then a stray } ] , or : - whatever comes after it - is malformed and fails the execution *)
+Theorem metrics_stray_fails i a js w c rest :
+  i_metrics i = FText (a ++ w ++ c :: rest) -> parse_stream a = Some js -> all_ws w = true -> stray c = true ->
+  v_metrics (i_metrics i) = Some false /\ nothing_done i.
+Proof.
+  intros E PA W S. apply (run_metrics_unreadable i _ E (app_stray_nonnil a w c rest)).
+  apply (stream_stray_rejected a js w c rest PA W S).
+Qed.
+
+(* a metrics / admission / conversion file cut anywhere inside a (printed) object or array *)
+Theorem metrics_truncated_fails i j p q :
+  i_metrics i = FText p -> wf_json j = true -> is_scalar j = false -> print_value j = p ++ q -> p <> [] -> q <> [] ->
+  v_metrics (i_metrics i) = Some false /\ nothing_done i.
+Proof.
+  intros E WF SC PR NP NQ. apply (run_metrics_unreadable i p E NP).
+  apply (truncation_rejected j p q WF SC PR NP NQ).
+Qed.
+
+Theorem admission_stray_fails i a j w c rest :
+  i_admission i = FText (a ++ w ++ c :: rest) -> parse_single a = Some j -> all_ws w = true -> stray c = true ->
+  v_admission (i_admission i) = Some false /\ o_success (run i) = false.
+Proof.
+  intros E PA W S.
+  destruct (run_admission_unreadable i _ E (app_stray_nonnil a w c rest) (single_stray_rejected a j w c rest PA W S)) as (V & Su & _).
+  auto.
+Qed.
+
+Theorem admission_truncated_fails i j p q :
+  i_admission i = FText p -> wf_json j = true -> is_scalar j = false -> print_value j = p ++ q -> p <> [] -> q <> [] ->
+  v_admission (i_admission i) = Some false /\ o_success (run i) = false.
+Proof.
+  intros E WF SC PR NP NQ.
+  destruct (run_admission_unreadable i p E NP (proj1 (truncation_rejected j p q WF SC PR NP NQ))) as (V & Su & _).
+  auto.
+Qed.
+
+Theorem conversion_truncated_fails i j p q :
+  i_conversion i = FText p -> wf_json j = true -> is_scalar j = false -> print_value j = p ++ q -> p <> [] -> q <> [] ->
+  v_conversion (i_conversion i) = Some false /\ o_success (run i) = false.
+Proof.
+  intros E WF SC PR NP NQ.
+  destruct (run_conversion_unreadable i p E NP (truncation_first_rejected j p q WF SC PR NP NQ)) as (V & Su & _).
+  auto.
+Qed.
+
+(* a stray closer or separator where the response document should start *)
+Theorem conversion_leading_stray_fails i w c rest :
+  i_conversion i = FText (w ++ c :: rest) -> all_ws w = true -> stray c = true ->
+  v_conversion (i_conversion i) = Some false /\ o_success (run i) = false.
+Proof.
+  intros E W S.
+  assert (NN : w ++ c :: rest <> []) by (destruct w; discriminate).
+  destruct (run_conversion_unreadable i _ E NN (proj1 (leading_stray_rejected w c rest W S))) as (V & Su & _).
+  auto.
+Qed.
+
+(* a valid metrics text, printed from well-formed documents the schema accepts, is well-formed
+   and (with everything else in order) the execution succeeds *)
+Theorem metrics_printed_succeeds i js :
+  i_metrics i = FText (print_docs js) -> forallb wf_json js = true ->
+  (forall d, In d js -> doc_verdict metric_doc metric_rules d = Some true) ->
+  v_metrics (i_metrics i) = Some true
+  /\ metrics_decodes (i_metrics i) = true /\ metrics_valid (i_metrics i) = true.
+Proof.
+  intros E WF DV.
+  assert (V : v_metrics (i_metrics i) = Some true).
+  { rewrite E. simpl. rewrite (roundtrip_stream js WF). apply vall_true. intros x Hx.
+    apply in_map_iff in Hx as (d & <- & Hd). now apply DV. }
+  split; [exact V|]. pose proof (metrics_agree _ _ V) as A. now apply andb_true_iff in A.
+Qed.
+
+(* ------------------------------------------------------------------ the finding: data after a conversion response *)
+Definition conv_witness : input :=
+  mkIn 0 FEmpty FEmpty FEmpty
+       (FText [123; 34; 99; 111; 110; 118; 101; 114; 116; 101; 100; 79; 98; 106; 101; 99; 116; 115; 34; 58; 91; 93; 125; 32; 120])
+       false 0.                       (* {"convertedObjects":[]} x *)
+Definition any_obs : observation := mkOb true true true true true true 5 0 0 false false false.
+
+Lemma conv_refuted : T_conv conv_witness = true /\ P_logic conv_witness (model_obs (conv_witness, any_obs)) = false
+                     /\ v_conversion (i_conversion conv_witness) = Some false /\ o_success (run conv_witness) = true.
+Proof. vm_compute. auto. Qed.
